@@ -26,12 +26,16 @@ def main():
     ap.add_argument("seed_dir")
     ap.add_argument("--needs", required=True)
     ap.add_argument("--skip-tests", action="store_true")
+    ap.add_argument("--sequential", action="store_true")
+    ap.add_argument("--note", default="")
     a = ap.parse_args()
     patch, demo = os.path.join(a.seed_dir, "patch.diff"), os.path.join(a.seed_dir, "demo.py")
     out_json = tempfile.mktemp(suffix=".json")
     cmd = [PY, os.path.join(VERIF, "tools", "seedcheck.py"), patch, "--demo", demo, "--json", out_json]
     if not a.skip_tests:
         cmd.append("--tests")
+    if a.sequential:
+        cmd.append("--sequential")
     subprocess.check_call(cmd)
     res = json.load(open(out_json))
     os.remove(out_json)
@@ -62,6 +66,8 @@ def main():
             "demo_with_patch_exit": res.get("demo_patched_exit"),
             "demo_with_patch_output_tail": res.get("demo_patched_tail", "")[-300:],
             "test_suite_with_patch": res.get("tests_summary", "not run"),
+            "test_suite_command": res.get("tests_cmd", ""),
+            "note": a.note,
             "how": "tools/register_seed.py: scratch copy of /repo HEAD under a temp dir, removed afterwards",
         },
         "checks_that_fire": fired,
